@@ -7,6 +7,7 @@ import (
 	"fmt"
 	"io"
 	"math"
+	"sort"
 	"strconv"
 	"strings"
 	"sync"
@@ -263,6 +264,8 @@ func (c *collector) finish() {
 	if skipped > 0 {
 		res.Note("%s: %d model answers skipped (input outside the parse table)", c.section, skipped)
 	}
+	// report failures in case order (directed cases and corpus entries first), not in the order they were noticed
+	sort.SliceStable(c.pend, func(i, j int) bool { return c.pend[i].at < c.pend[j].at })
 	for _, p := range c.pend {
 		sf := p.sf
 		if p.at >= 0 {
